@@ -324,13 +324,6 @@ func (passValidator) Validate(_ context.Context, cmd disruption.Command, _ time.
 	return cmd, nil
 }
 
-// nowValidator runs the real validator without the delay.
-type nowValidator struct{ inner disruption.Validator }
-
-func (v nowValidator) Validate(ctx context.Context, cmd disruption.Command, _ time.Duration) (disruption.Command, error) {
-	return v.inner.Validate(ctx, cmd, 0)
-}
-
 // rebuildCatalog replaces the provider's instance types by fresh objects built from a modified copy of the catalog
 // (a provider returns fresh InstanceType values; the ones in use cache their available offerings on first use).
 func (w *world) rebuildCatalog(mod func(*itSpec)) {
